@@ -119,6 +119,9 @@ impl OutputFormat for Artworx {
         loop {
             for _ in 0..result.get_width() {
                 if o + 2 > file_size {
+                    // the buffer was created with 25 rows: rows below the picture would survive crop_loaded_file
+                    let rows = result.layers[0].get_height().max(0) as usize;
+                    result.layers[0].lines.truncate(rows);
                     crate::crop_loaded_file(&mut result);
                     return Ok(result);
                 }
